@@ -32,6 +32,11 @@ fn operand_any(ctx: &mut Ctx) -> Dd {
         return c;
     }
     if ctx.chance(1, 12) {
+        if let Some(d) = derived_operand(ctx, -1000, 999) {
+            return d;
+        }
+    }
+    if ctx.chance(1, 12) {
         ctx.label("non-finite");
         let pool = nonfinite_pool();
         pool[ctx.below(pool.len() as u64) as usize].1
